@@ -61,7 +61,11 @@ def run(ctx):
         for j, E in enumerate(pts):
             add({"kind": "sf", "z": z, "E": [E], "wavelength": (j % 5 == 0), "via": rng.choice(["el", "el", "ion", "iso"])})
         for j in range(3 if quick else 10):
-            add({"kind": "sf", "z": z, "E": sorted(rng.sample(pts, min(len(pts), 6))), "vector": True, "wavelength": (j % 2 == 0)})
+            Ev = sorted(rng.sample(pts, min(len(pts), 6)))
+            if j % 3 == 1:          # as a caller may write them: any order, a value twice
+                rng.shuffle(Ev)
+                Ev.append(Ev[0])
+            add({"kind": "sf", "z": z, "E": Ev, "vector": True, "wavelength": (j % 2 == 0)})
     for z in without[:8]:
         add({"kind": "sf", "z": z, "E": [8.0]})
     # ---- compounds, relations, reflectivity, f0
@@ -99,6 +103,8 @@ def run(ctx):
             addo({"kind": "rel", "rel": "density", "compound": ["dict", comp], "density": rho, "E": E, "k": rng.choice([0.5, 2.0, 3.3, 10.0])})
         elif m == 4:
             Es = sorted(rng.sample(energies[:11], 4))
+            if i % 12 == 4:
+                rng.shuffle(Es)
             addo({"kind": "rel", "rel": "vector", "compound": ["dict", comp], "density": rho, "E": E, "vector": Es, "index": rng.randrange(4)})
         else:
             iso_l = rawtables.isotope_list()
